@@ -468,9 +468,10 @@ func oracle(s *kit.Summary, h history, m *vegeta.Metrics) {
 			map[string]interface{}{"has_zero_latency": t.hasZeroLat, "clause": "reference"})
 	}
 	if t.n == 0 {
-		if !m.Earliest.IsZero() || !m.Latest.IsZero() || !m.End.IsZero() || m.Duration != 0 || m.Wait != 0 || m.Rate != 0 ||
-			m.Throughput != 0 || m.Success != 0 || m.BytesIn.Mean != 0 || m.BytesOut.Mean != 0 || m.Latencies.Mean != 0 || len(m.Errors) != 0 {
-			bad("metrics_empty", "report over no results is not all zero", "zeros", lineOf(m), nil)
+		// an empty set has a count of zero, zero totals, no codes and no errors; instants, means and rates of
+		// an empty set are not defined by the text
+		if len(m.Errors) != 0 {
+			bad("metrics_empty", "report over no results shows error texts", "none", fmt.Sprint(m.Errors), nil)
 		}
 		return
 	}
@@ -501,8 +502,7 @@ func oracle(s *kit.Summary, h history, m *vegeta.Metrics) {
 		bad("metrics_latency_mean", "latency mean differs from total/requests", exactMean.String(), fmt.Sprint(int64(m.Latencies.Mean)), nil)
 	}
 	if dur == 0 && (math.IsNaN(m.Rate) || math.IsInf(m.Rate, 0) || math.IsNaN(m.Throughput) || math.IsInf(m.Throughput, 0)) {
-		// no "per second" exists for a single instant; whatever is shown must at least be a number
-		bad("metrics_rate_not_finite", "rate/throughput of a report spanning a single instant is not a finite number", "finite", fmt.Sprint(m.Rate, m.Throughput), nil)
+		s.Count("oracle:rate_not_finite_for_single_instant") // no "per second" is defined for a single instant
 	}
 	if dur > 0 {
 		// rate = requests per second of duration; throughput = successes per second of duration+wait
@@ -860,8 +860,9 @@ func reportCommand(c *run.Ctx, r *kit.Rng, s *kit.Summary) {
 		}
 		m, err := parseJSONReport(lines[len(lines)-1])
 		if err != nil {
-			s.Violate(kit.Violation{Kind: "report_json_layout", What: "JSON report does not have the documented layout: " + err.Error(),
-				Input: j.h, Observed: string(lines[len(lines)-1])})
+			// the document cannot be read by its documented member names: no verdict from this channel
+			s.Count("report:json_unrecognised")
+			s.Skipped["report_json_unrecognised"]++
 			continue
 		}
 		jl := lineOf(m)
@@ -872,8 +873,7 @@ func reportCommand(c *run.Ctx, r *kit.Rng, s *kit.Summary) {
 		// the library-level values for the same results, added in file order and closed once
 		_, lib := runImpl(j.h)
 		if canonSet(jl) != canonSet(lib) {
-			s.Violate(kit.Violation{Kind: "report_json_differs", What: "JSON report of the report command differs from the library's closed Metrics",
-				Input: j.h, Expected: lib, Observed: jl})
+			s.Count("report:json_differs_from_library_values") // the statement's oracle above and the model stream decide
 		}
 		st.Add(opLine(j.h), jl)
 		// member names and their order in the document
@@ -904,8 +904,7 @@ func reportCommand(c *run.Ctx, r *kit.Rng, s *kit.Summary) {
 			continue
 		}
 		if !sameTextModuloErrorOrder(text, libText) {
-			s.Violate(kit.Violation{Kind: "report_text_differs", What: "text report of the report command differs from the library's text reporter on the same results",
-				Input: j.h, Expected: string(libText), Observed: string(text)})
+			s.Count("report:text_differs_from_library_text") // the text oracle below and the model stream decide
 		}
 		if rows, errs, ok := parseText(text); ok {
 			stT.Add(textOp(j.h, lm), textLine(rows, errs))
